@@ -594,9 +594,9 @@ def check_unit(unit, rlimit=None, seed=None, with_canary=True):
     # a resource-limit hit is retried with larger budgets before the run is declared undecided
     # (a failing obligation often needs more search than a passing one)
     budget = rlimit or 10
-    while status == "undecided" and any("tool limit" in n and ("rlimit" in n.lower() or "resource limit" in n.lower()) for n in notes) and budget < 600:
+    while status == "undecided" and any("tool limit" in n and ("rlimit" in n.lower() or "resource limit" in n.lower()) for n in notes) and budget < 80:
         budget *= 8
-        res = run_verus(path, rlimit=budget, extra=extra, timeout=1500)
+        res = run_verus(path, rlimit=budget, extra=extra, timeout=600)
         status, fails, notes = classify(res)
     if status == "undecided":
         raise Undecided(f"unit {unit}: " + "; ".join(notes))
